@@ -597,6 +597,19 @@ impl<'c> MGen<'c> {
 
     fn force_sign(&mut self, d: &mut Draw, e: Expr, signed: bool) -> Expr {
         let t = ty_of(&self.m, &e);
+        if !self.cfg.sign_casts && t.signed != signed {
+            // cast-free dialect (non-default): leave an operand unsigned where
+            // signed was wanted; `{e}` is the cast-free `$unsigned(e)`
+            // (a concatenation is unsigned and its operand self-determined)
+            if signed {
+                return e;
+            }
+            let e = match e {
+                Expr::Lit(Lit::Dec(n)) => Expr::lit_u(32, BigUint::from(n)),
+                e => e,
+            };
+            return Expr::Concat(vec![(e, None)]);
+        }
         if t.signed == signed {
             e
         } else if signed {
@@ -621,7 +634,7 @@ impl<'c> MGen<'c> {
                     dd.array.is_none()
                         && !matches!(dd.syntax, TySyntax::Struct(_) | TySyntax::Enum(_))
                         && (!sc.const_only || konst)
-                        && (dd.ty.signed || (!konst && (!shares || self.cast_only.contains(&v))))
+                        && (dd.ty.signed || (self.cfg.sign_casts && !konst && (!shares || self.cast_only.contains(&v))))
                 })
                 .collect();
             if vars.is_empty() || d.chance(1, 4) {
